@@ -1160,3 +1160,120 @@ Proof.
   - unfold cvc_eval. cbn [c_groups c_kind keval map k_gyration snd fit_ok fit_ok_g self_centred]. split; [|exact I].
     unfold gnth. cbn [nth]. unfold self_centred. rewrite vsum_scale, centred_vsum by exact Hne. rewrite !v3scale_zero_r. reflexivity.
 Qed.
+
+(* ------------------------------------------------------------------ closed form: guards instead of abstract hypotheses *)
+Definition com_of (s : SYS) (g : GRP) : V3 := gd_com Rops (gdata_of Rops s g).
+
+(* the documented non-singular geometries of the components proved so far *)
+Definition kind_guard (cell : option V3) (c : cvc) (s : SYS) : Prop :=
+  match c_kind c, c_groups c with
+  | KDistance pbc, [g1; g2] => grp_ok s g1 /\ grp_ok s g2 /\ plain pbc cell /\ com_of s g2 <> com_of s g1
+  | KDistanceZ pbc ax, [gm; gr] => grp_ok s gm /\ grp_ok s gr /\ plain pbc cell
+  | KDistanceXY pbc ax, [gm; gr] =>
+    grp_ok s gm /\ grp_ok s gr /\ plain pbc cell /\ v3norm2 Rops ax = 1 /\
+    v3norm2 Rops (vperp (v3sub Rops (com_of s gm) (com_of s gr)) ax) <> 0
+  | KInertia, [GAtoms ids (Some z) None false] => z = vzero Rops /\ ids_ok s ids /\ ids <> []
+  | KGyration, [GAtoms ids (Some z) None false] =>
+    z = vzero Rops /\ ids_ok s ids /\ ids <> [] /\ cvc_value Rops PI cell c s <> 0
+  | _, _ => False
+  end.
+Definition cvc_guard (cell : option V3) (c : cvc) (s : SYS) : Prop :=
+  kind_guard cell c s /\ exp_ok_at (c_exp c) (cvc_value Rops PI cell c s).
+
+Lemma cvc_guard_ok cell c (s : SYS) : cvc_guard cell c s -> cvc_ok cell c s.
+Proof.
+  intros [Hk He]. split; [|exact He]. clear He.
+  destruct c as [co e kind groups]. unfold kind_guard in Hk. cbn [c_kind c_groups] in Hk.
+  destruct kind; try contradiction.
+  - destruct groups as [|g1 [|g2 [|g3 r]]]; try contradiction. destruct Hk as (H1 & H2 & Hp & Hn).
+    apply cvc_grad_correct_distance; assumption.
+  - destruct groups as [|g1 [|g2 [|g3 r]]]; try contradiction. destruct Hk as (H1 & H2 & Hp).
+    apply cvc_grad_correct_distanceZ; assumption.
+  - destruct groups as [|g1 [|g2 [|g3 r]]]; try contradiction. destruct Hk as (H1 & H2 & Hp & Ha & Hn).
+    apply cvc_grad_correct_distanceXY; assumption.
+  - destruct groups as [|[p|ids c fit fg] [|g2 r]]; try contradiction;
+      (destruct c as [z|]; try contradiction; destruct fit; try contradiction; destruct fg; try contradiction).
+    destruct Hk as (-> & Hi & Hne & Hv). apply cvc_grad_correct_gyration; assumption.
+  - destruct groups as [|[p|ids c fit fg] [|g2 r]]; try contradiction;
+      (destruct c as [z|]; try contradiction; destruct fit; try contradiction; destruct fg; try contradiction).
+    destruct Hk as (-> & Hi & Hne). apply cvc_grad_correct_inertia; assumption.
+Qed.
+
+Definition bias_guard (b : bias) (ws : list cvar) (x0 : list R) : Prop :=
+  match b with
+  | BHarmonic k cs => terms_ok fst cs ws
+  | BLinear k cs => terms_ok fst cs ws
+  | BWalls k lk uk hl hu l => terms_ok fst l ws /\ walls_guard hl hu l x0
+  end.
+Lemma bias_guard_ok b ws x0 : bias_guard b ws x0 -> bias_force_correct b ws x0.
+Proof.
+  destruct b as [k cs|k lk uk hl hu l|k cs]; cbn [bias_guard].
+  - apply bias_force_correct_harmonic.
+  - intros [H1 H2]. apply bias_force_correct_walls; assumption.
+  - apply bias_force_correct_linear.
+Qed.
+
+Lemma forces_nth (cf : config) (s : SYS) a : (a < length s)%nat ->
+  nth a (forces Rops PI cf s) (vzero Rops) = force_on Rops PI cf s a.
+Proof.
+  intros Ha. unfold forces, force_on.
+  rewrite (nth_indep _ (vzero Rops) (scatter Rops (all_contribs Rops PI cf s) 0)) by (rewrite map_length, seq_length; exact Ha).
+  rewrite (map_nth (scatter Rops (all_contribs Rops PI cf s)) (seq 0 (length s)) 0%nat a), seq_nth by exact Ha. reflexivity.
+Qed.
+
+Theorem forces_are_minus_gradient (cf : config) (s : SYS) :
+  (forall v c, In v (cf_vars cf) -> In c (cv_cvcs v) -> cvc_guard (cf_cell cf) c s) ->
+  (forall b, In b (cf_biases cf) -> bias_guard b (cf_vars cf) (var_values Rops PI cf s)) ->
+  forall a k, (a < length s)%nat ->
+    is_derive (fun t => energy Rops PI cf (set_coord s a k t)) (coord Rops s a k)
+              (- vget k (nth a (forces Rops PI cf s) (vzero Rops))).
+Proof.
+  intros Hc Hb a k Ha. rewrite forces_nth by exact Ha. apply chain_rule.
+  - intros v c Hv Hin. apply cvc_guard_ok. apply (Hc v c Hv Hin).
+  - intros b Hin. apply bias_guard_ok. apply (Hb b Hin).
+Qed.
+
+(* ------------------------------------------------------------------ a concrete configuration satisfying every guard *)
+Definition ex_sys : SYS :=
+  [mkAtom 1 0 (0, 0, 0); mkAtom 2 0 (3, 0, 0); mkAtom 1 0 (0, 4, 0); mkAtom 1 0 (1, 1, 1)].
+Definition ex_g1 : GRP := GAtoms [0%nat] None None true.
+Definition ex_g2 : GRP := GAtoms [1%nat; 2%nat] (Some (0, 0, 0)) (Some [0%nat; 3%nat]) true.
+Definition ex_cvc : cvc := mkCvc 2 2 (KDistance true) [ex_g1; ex_g2].
+Definition ex_cf : config :=
+  mkConfig None [mkCvar 1 false 0 [ex_cvc]] [BHarmonic 3 [(0%nat, 1)]; BWalls 1 1 1 false true [(0%nat, (0, -1))]].
+
+
+Lemma ex_grp : grp_ok ex_sys ex_g1 /\ grp_ok ex_sys ex_g2.
+Proof.
+  unfold grp_ok, wf_group, group_mass_ok, fit_on, ids_ok, ex_g1, ex_g2, ex_sys. cbn [fit_ids length In].
+  repeat split; try (intros i Hi; repeat (destruct Hi as [<-|Hi]; [lia|]); contradiction); try discriminate; cbn; intros H; lra.
+Qed.
+
+Lemma ex_value_nonneg : 0 <= xat Rops (var_values Rops PI ex_cf ex_sys) 0.
+Proof.
+  unfold var_values, ex_cf, xat. cbn [cf_vars map nth cf_cell]. unfold var_value. cbn [cv_cvcs map]. rewrite tsum_cons, tsum_nil.
+  unfold cvc_term. cbn [c_exp c_coeff ex_cvc Z.eqb Pos.eqb]. change 2%Z with (Z.of_nat 2). rewrite ipow_nat.
+  change (IZR (Z.of_nat 2)) with 2. cbn [nmul Rops]. set (q := cvc_value Rops PI None ex_cvc ex_sys). pose proof (pow2_ge_0 q). lra.
+Qed.
+
+Lemma ex_guards :
+  (forall v c, In v (cf_vars ex_cf) -> In c (cv_cvcs v) -> cvc_guard (cf_cell ex_cf) c ex_sys) /\
+  (forall b, In b (cf_biases ex_cf) -> bias_guard b (cf_vars ex_cf) (var_values Rops PI ex_cf ex_sys)).
+Proof.
+  assert (T : terms_ok fst [(0%nat, 1)] (cf_vars ex_cf)).
+  { intros a [<-|[]]. cbn [fst length cf_vars ex_cf]. split; [lia|]. unfold var_ok, vat. cbn. split; [lra|reflexivity]. }
+  split.
+  - intros v c [<-|[]] [<-|[]]. split.
+    + unfold kind_guard, ex_cvc. cbn [c_kind c_groups cf_cell ex_cf]. destruct ex_grp as [G1 G2].
+      split; [exact G1|split; [exact G2|split; [left; reflexivity|]]].
+      intros H. apply (f_equal (vget AX)) in H.
+      unfold com_of, gd_com, gdata_of, ex_g1, ex_g2, ex_sys, gshift, cog_of, fit_ids, gd_mass, atom_at in H.
+      cbn in H. lra.
+    + left. cbn. lia.
+  - intros b [<-|[<-|[]]]; cbn [bias_guard].
+    + exact T.
+    + split.
+      * intros a [<-|[]]. apply (T (0%nat, 1)). left; reflexivity.
+      * intros iw [<-|[]]. cbn [fst snd]. repeat split; try discriminate.
+        intros _. pose proof ex_value_nonneg. lra.
+Qed.
